@@ -220,6 +220,7 @@ pub struct ZervCall {
     pub path: Option<String>,
     pub rm_cwd: bool,
     pub stdout: crate::proc::Stdout,
+    pub stderr: crate::proc::Stdout,
 }
 
 impl ZervCall {
@@ -234,6 +235,7 @@ impl ZervCall {
             path: None,
             rm_cwd: false,
             stdout: crate::proc::Stdout::Capture,
+            stderr: crate::proc::Stdout::Capture,
         }
     }
     pub fn args_string(&self) -> String {
@@ -275,6 +277,7 @@ pub fn run_zerv(ctx: &Ctx, rd: &RunDir, call: &ZervCall, stats: &mut Stats) -> O
         rm_cwd: call.rm_cwd,
         mem_limit: Some(8 << 30),
         stdout: call.stdout,
+        stderr: call.stderr,
     };
     stats.zerv_spawns += 1;
     proc::run(&spec)
